@@ -15,6 +15,7 @@ import NumqiProofs.ManifoldSym
 import NumqiProofs.ManifoldEuler
 import NumqiProofs.ManifoldDetExp
 import NumqiProofs.ManifoldABk
+import NumqiProofs.ManifoldSeparable
 import NumqiProofs.ManifoldContracts
 
 namespace Numqi.C01
@@ -218,6 +219,18 @@ theorem stiefelQR_orthonormal (qrQ : NMat ℂ → NMat ℂ)
 theorem stiefelSO_orthonormal (rank : Nat) (h : rank ≤ dim) (U : NMat ℂ) (hU : (toM dim dim U)ᴴ * toM dim dim U = 1) :
     (toM dim rank (soColumns dim rank U))ᴴ * toM dim rank (soColumns dim rank U) = 1 := soColumns_orthonormal rank h U hU
 
+/-- `Stiefel(method='so-exp')()` — the composite that op `stso … exp` executes — has orthonormal columns for every θ -/
+theorem stiefelSO_exp_orthonormal (rank : Nat) (h : rank ≤ dim) (expm : NMat ℂ → NMat ℂ) (hexp : ∀ A, toM dim dim (expm A) = mexp (toM dim dim A))
+    (S : Scalars ℂ) (hS : S.Valid dim) (hd : 1 ≤ dim) (isReal : Bool) (θ : Nat → ℝ) :
+    (toM dim rank (soColumns dim rank (soExp expm S dim isReal θ)))ᴴ * toM dim rank (soColumns dim rank (soExp expm S dim isReal θ)) = 1 :=
+  soColumns_orthonormal rank h _ (soExp_unitary' expm hexp S hS hd isReal θ)
+/-- `Stiefel(method='so-cayley')()` (Cayley order 2, the default used by `Stiefel.forward`; any order) likewise -/
+theorem stiefelSO_cayley_orthonormal (rank : Nat) (h : rank ≤ dim) (inv : NMat ℂ → NMat ℂ)
+    (hinv : ∀ P, IsUnit (toM dim dim P).det → toM dim dim (inv P) * toM dim dim P = 1)
+    (S : Scalars ℂ) (hS : S.Valid dim) (hd : 1 ≤ dim) (order : Nat) (isReal : Bool) (θ : Nat → ℝ) :
+    (toM dim rank (soColumns dim rank (soCayley inv S dim order isReal θ)))ᴴ * toM dim rank (soColumns dim rank (soCayley inv S dim order isReal θ)) = 1 :=
+  soColumns_orthonormal rank h _ (soCayley_unitary' inv hinv S hS hd order isReal θ)
+
 /-! ### compositions -/
 
 /-- `QuantumChannel` (`kraus`): `Σ_s K_sᴴ K_s = XᴴX`, the identity when `X` is on the Stiefel manifold -/
@@ -244,6 +257,25 @@ theorem separable_is_mixture (n : Nat) (p : Nat → ℂ) (a b : NMat ℂ) (i j i
   simp only [separableDM, sumK_eq, CxOps.conj]
   refine Finset.sum_congr rfl (fun k _ => ?_)
   simp only [Complex.star_def]; ring
+
+/-- `SeparableDensityMatrix()` has **unit trace** when the weights sum to one and every `a_k`, `b_k` is a unit vector … -/
+theorem separable_trace_one (n dA dB : Nat) (p : Nat → ℂ) (a b : NMat ℂ)
+    (hA : ∀ k, k < n → ∑ i : Fin dA, a.get k i.val * star (a.get k i.val) = 1)
+    (hB : ∀ k, k < n → ∑ j : Fin dB, b.get k j.val * star (b.get k j.val) = 1)
+    (hp : ∑ k : Fin n, p k.val = 1) :
+    ∑ i : Fin dA, ∑ j : Fin dB, separableDM n p a b i.val j.val i.val j.val = 1 := separableDM_trace n dA dB p a b hA hB hp
+/-- … and is **positive semidefinite** for non-negative weights: `vᴴ ρ v = Σ_k p_k |⟨v, a_k ⊗ b_k⟩|²` is a non-negative real for every `v` -/
+theorem separable_posSemidef (n dA dB : Nat) (p : Nat → ℝ) (hp : ∀ k, 0 ≤ p k) (a b : NMat ℂ) (v : Fin dA × Fin dB → ℂ) :
+    ∃ q : ℝ, 0 ≤ q ∧ ∑ x : Fin dA × Fin dB, ∑ y : Fin dA × Fin dB,
+      star (v x) * separableDM n (fun k => ((p k : ℝ) : ℂ)) a b x.1.val x.2.val y.1.val y.2.val * v y = (q : ℂ) :=
+  separableDM_quadratic_nonneg n dA dB p hp a b v
+/-- the composite that op `sepdm` executes (softmax weights, `pairCx ∘ sphereQuotientVec` vectors, all θ_A, θ_B ≠ 0) has unit trace -/
+theorem separable_composite_trace_one (n dA dB : Nat) (hn : 0 < n) (tp : Nat → ℝ) (ta tb : Nat → Nat → ℝ)
+    (hA : ∀ k, normSq (dA + dA) (ta k) ≠ 0) (hB : ∀ k, normSq (dB + dB) (tb k) ≠ 0) :
+    ∑ i : Fin dA, ∑ j : Fin dB, separableDM n (fun k => ((softmaxVec n tp k : ℝ) : ℂ))
+      (NMat.ofFn n dA fun k i => pairCx (K := ℂ) dA (sphereQuotientVec (dA + dA) (ta k)) i)
+      (NMat.ofFn n dB fun k j => pairCx (K := ℂ) dB (sphereQuotientVec (dB + dB) (tb k)) j) i.val j.val i.val j.val = 1 :=
+  separable_composite_trace_one' n dA dB hn tp ta tb hA hB
 
 /-! ### Euler–Hurwitz angles -/
 
@@ -279,6 +311,21 @@ theorem abk2local_hermitian {R : Type} [CommRing R] [StarRing R] (I : R) (hI : s
     (h1 : ∀ r c q, coefS (idxS c r) q = coefS (idxS r c) q) (h2 : ∀ r c q, coefK (idxK c r) q = -coefK (idxK r c) q) (r c : Nat) :
     star (ABk.twoLocal I d coefS idxS coefK idxK M c r) = ABk.twoLocal I d coefS idxS coefK idxK M r c :=
   ABk.twoLocal_star I hI d coefS idxS coefK idxK M hM hcS hcK h1 h2 r c
+
+/-- `ABk2localHermitian.to_AB()` is Hermitian (real parameter matrix; any commutative `*`-ring) -/
+theorem abkToAB_hermitian {R : Type} [CommRing R] [StarRing R] (I : R) (hI : star I = -I) (M : Nat → Nat → R)
+    (hM : ∀ a b, star (M a b) = M a b) (r c : Nat) : star (ABk.toAB I M c r) = ABk.toAB I M r c := ABk.toAB_star I hI M hM r c
+/-- **`ABk2localHermitian()` without its tables**: the matrix `Σ_x P_{0x}(H_AB ⊗ 1)P_{0x}` that the forward pass is tied to exactly (op `abk2sum`,
+which takes only `dimA, dimB, kext` and the parameter matrix — none of the tables of `ABk_2local_symmetry_index` /
+`ABk_2local_skew_symmetry_index` / `unique_index_set`) is Hermitian, with no table hypothesis at all -/
+theorem abk2local_sum_hermitian {R : Type} [CommRing R] [StarRing R] (I : R) (hI : star I = -I) (dimB kext : Nat) (M : Nat → Nat → R)
+    (hM : ∀ a b, star (M a b) = M a b) (r c : Nat) : star (ABk.sumEmbed I dimB kext M c r) = ABk.sumEmbed I dimB kext M r c :=
+  ABk.sumEmbed_star I hI dimB kext M hM r c
+/-- for `kext = 1` it is `to_AB` itself; and the embedding used in each term is `np.kron(H_AB, eye(m))` -/
+theorem abk2local_sum_kext_one {R : Type} [CommRing R] [StarRing R] (I : R) (dimB : Nat) (hB : 0 < dimB) (M : Nat → Nat → R) (r c : Nat) :
+    ABk.sumEmbed I dimB 1 M r c = ABk.toAB I M r c := ABk.sumEmbed_one I dimB hB M r c
+theorem abk_embed_is_kron {R : Type} [CommRing R] [StarRing R] (m : Nat) (hm : 0 < m) (H : Nat → Nat → R) (a b q q' : Nat) (hq : q < m) (hq' : q' < m) :
+    ABk.embed0 m H (a * m + q) (b * m + q') = if q = q' then H a b else 0 := ABk.embed0_kron m hm H a b q q' hq hq'
 
 /-! ### non-vacuity -/
 
